@@ -403,6 +403,7 @@ def c09(ctx):
         ctx.random_validate("data", 48, 80)
         ctx.random_validate("oneway", 16, 80)
         ctx.random_validate("rekey", 48, 4)
+        ctx.random_validate("life", 48, 60)
     else:
         ctx.model("c09-5x4", dict(DATA33, MaxSend=5, MaxFlight=4), inv)
         ctx.model("c09-tick", dict(DATA33, MaxSend=3, MaxFlight=3, MaxTick=2, MaxExtra=2), inv)
@@ -481,6 +482,12 @@ STARTS = {
                                        dict(a="Query", p="B")]),
     # a new start right after a session was ended (no minute has passed): by the side that ended it, by the
     # side that was told, and by a Send under required encryption
+    # a version in common but not the same sets: the tag / query offers more than the receiver allows, or less
+    "tag-v2only": (dict(PolA=3 | 8, PolB=1 | 16), [dict(a="Send", p="A")]),
+    "tag-v3only": (dict(PolA=3 | 8, PolB=2 | 16), [dict(a="Send", p="A")]),
+    "tag-fromv2": (dict(PolA=1 | 8, PolB=3 | 16), [dict(a="Send", p="A")]),
+    "req-mixed": (dict(PolA=3 | 4, PolB=1), [dict(a="Send", p="A")]),
+    "query-v3only": (dict(PolA=3, PolB=2), [dict(a="Query", p="A")]),
     "restart": (dict(PolA=3, PolB=3), _SESSION + [dict(a="End", p="A"), dict(a="Deliver", p="B"), dict(a="Query", p="A")]),
     "restartB": (dict(PolA=3, PolB=3), _SESSION + [dict(a="End", p="A"), dict(a="Deliver", p="B"), dict(a="Query", p="B")]),
     "restart-req": (dict(PolA=3 | 4, PolB=3), _SESSION + [dict(a="End", p="A"), dict(a="Deliver", p="B"), dict(a="Send", p="A")]),
